@@ -129,9 +129,11 @@ def _const_range_of(mir, op):
 
 
 class SubjectAnalysis:
-    def __init__(self, mir, is_subject, lo=0, hi=UMAX, body=None):
-        """is_subject(Origin) -> bool"""
+    def __init__(self, mir, is_subject, lo=0, hi=UMAX, body=None, eb=None):
+        """is_subject(expr) -> bool   (expr as built by vplib.expr.ExprBuilder; casts are stripped first)"""
+        from .expr import ExprBuilder
         self.mir = mir
+        self.eb = eb or ExprBuilder(mir, body)
         self.is_subject = is_subject
         self.lo, self.hi = lo, hi
         self.state = {}
@@ -141,8 +143,9 @@ class SubjectAnalysis:
     def _subj_op(self, op):
         if op.place is None:
             return False
+        from .expr import strip_casts
         try:
-            return bool(self.is_subject(origin_of_operand(self.mir, op)))
+            return bool(self.is_subject(strip_casts(self.eb.operand(op))))
         except Exception:
             return False
 
